@@ -31,7 +31,8 @@ Inductive pval :=
 | PDt (naive off tz : Z) (exc : bool)
 | PTuple (l : list pval)
 | PList (l : list pval)
-| PDict (kvs : list (string * pval))                    (* insertion order; keys are text *)
+| PDict (kvs : list (string * pval))                    (* insertion order; a key is an injective token of
+                                                            the key's equality class (None, numbers, str, bytes, tuples) *)
 | PRec (name : string) (fields : list (string * string)) (vals : list pval)
 | PGrp (name : string) (members : list pval)
 | PFset (l : list pval).                                (* frozenset; only produced by freezing a dict *)
